@@ -230,3 +230,71 @@ silent('C03', 'machine-worker-renamed-local',
        lambda p: M.replace_node(p, N_MAC, 'Machine._push_item', lambda n: isinstance(n, ast.If), sub('put_token', 'tok')))
 silent('C03', 'sink-logging',
        lambda p: M.insert_after(p, N_SNK, 'Sink.behaviour', M.assign_to("self.stats['num_item_received']"), 'print("received")'))
+
+# ============================================================================================ C05
+PQ = 'base/priority_req_store.py'
+fire('C05', 'prs-sort-wrong-key', 'C05.R1', 'ReservablePriorityReqStore.reserve_get',
+     lambda p: M.replace_node(p, S_PRS, 'ReservablePriorityReqStore.reserve_get', M.is_call('self.reserve_get_queue.sort'), sub('e.priority_to_get', 'e.priority_to_put')))
+fire('C05', 'fleet-sort-reversed', 'C05.R1', 'FleetStore.reserve_put',
+     lambda p: M.replace_node(p, S_FLT, 'FleetStore.reserve_put', M.is_call('self.reserve_put_queue.sort'), sub('key=', 'reverse=True, key=')))
+fire('C05', 'slot-priority-not-stored', 'C05.R1', 'BeltStore.reserve_put',
+     lambda p: M.replace_node(p, S_SLOT, 'BeltStore.reserve_put', M.assign_to('event.priority_to_put'), 'event.priority_to_put = 0'))
+fire('C05', 'filter-sort-deleted', 'C05.R1', 'ReservablePriorityReqFilterStore.reserve_put',
+     lambda p: M.delete_stmt(p, S_FS, 'ReservablePriorityReqFilterStore.reserve_put', M.stmt_calling('self.reserve_put_queue.sort')))
+fire('C05', 'buffer-enqueue-at-front', 'C05.R', 'BufferStore.reserve_put',
+     lambda p: M.replace_node(p, S_BUF, 'BufferStore.reserve_put', M.stmt_calling('self.reserve_put_queue.append'), 'self.reserve_put_queue.insert(0, event)'))
+fire('C05', 'rs-cancel-pops-head', 'C05.R2', 'ReservableReqStore.reserve_get_cancel',
+     lambda p: M.replace_node(p, S_RS, 'ReservableReqStore.reserve_get_cancel', M.stmt_calling('self.reserve_get_queue.remove'), 'self.reserve_get_queue.pop(0)'))
+fire('C05', 'belt-put-reverses-queue', 'C05.R2', 'BeltStore',
+     lambda p: M.insert_after(p, S_BELT, 'BeltStore.put', M.stmt_calling('self._trigger_reserve_get'), 'self.reserve_get_queue.reverse()'))
+fire('C05', 'sortedqueue-descending', 'C05.R4', 'SortedQueue.append',
+     lambda p: M.replace_node(p, PQ, 'SortedQueue.append', M.is_call('.sort'), sub('key=', 'reverse=True, key=')))
+fire('C05', 'priorityget-key-after-enqueue', 'C05.R4', 'PriorityGet.__init__',
+     lambda p: M.chain(p, lambda q: M.delete_stmt(q, PQ, 'PriorityGet.__init__', M.assign_to('self.key')),
+                       lambda q: M.insert_after(q, PQ, 'PriorityGet.__init__', M.stmt_calling('.__init__'), 'self.key = (self.priority, self.time)')))
+fire('C05', 'priorityput-key-time-first', 'C05.R4', 'PriorityPut.__init__',
+     lambda p: M.replace_node(p, PQ, 'PriorityPut.__init__', M.assign_to('self.key'), 'self.key = (self.time, self.priority)'))
+fire('C05', 'machine-passes-priority', 'C05.R5', 'Machine._push_item',
+     lambda p: M.replace_node(p, N_MAC, 'Machine._push_item', M.is_call('.reserve_put'), 'outstore.reserve_put(priority=1)'))
+fire('C05', 'fleet-grant-reads-request', 'C05.R3', 'FleetStore._do_reserve_put',
+     lambda p: M.replace_node(p, S_FLT, 'FleetStore._do_reserve_put', M.compare_containing('self.capacity'), lambda s: s + ' and event.priority_to_put < 5'))
+silent('C05', 'prs-lambda-renamed',
+       lambda p: M.replace_node(p, S_PRS, 'ReservablePriorityReqStore.reserve_put', M.is_call('self.reserve_put_queue.sort'), 'self.reserve_put_queue.sort(key=lambda ev: ev.priority_to_put)'))
+silent('C05', 'fleet-logging',
+       lambda p: M.insert_before(p, S_FLT, 'FleetStore.reserve_get', M.stmt_calling('self.reserve_get_queue.append'), 'print("enqueue", priority)'))
+
+# ============================================================================================ C11
+fire('C11', 'buffer-can-put-ignores-reservations', 'C11.R1', 'Buffer.can_put',
+     lambda p: M.replace_node(p, E_BUF, 'Buffer.can_put', lambda n: isinstance(n, ast.Return) and 'reservations_put' in ast.unparse(n),
+                              'return (self.capacity - len(self.inbuiltstore.items) - len(self.inbuiltstore.ready_items)) > 0'))
+fire('C11', 'fleet-can-put-ge', 'C11.R1', 'Fleet.can_put',
+     lambda p: M.replace_node(p, E_FLT, 'Fleet.can_put', lambda n: isinstance(n, ast.Return) and 'reservations_put' in ast.unparse(n), sub('>len', '>=len')))
+fire('C11', 'buffer-can-put-ignores-ready', 'C11.R1', 'Buffer.can_put',
+     lambda p: M.replace_node(p, E_BUF, 'Buffer.can_put', lambda n: isinstance(n, ast.Return) and 'reservations_put' in ast.unparse(n),
+                              'return (self.capacity - len(self.inbuiltstore.items)) > len(self.inbuiltstore.reservations_put)'))
+fire('C11', 'buffer-can-get-counts-in-transit', 'C11.R2', 'Buffer.can_get',
+     lambda p: M.replace_node(p, E_BUF, 'Buffer.can_get', lambda n: isinstance(n, ast.Return) and 'reservations_get' in ast.unparse(n),
+                              'return len(self.inbuiltstore.ready_items) + len(self.inbuiltstore.items) > len(self.inbuiltstore.reservations_get)'))
+fire('C11', 'fleet-can-get-ignores-reservations', 'C11.R2', 'Fleet.can_get',
+     lambda p: M.replace_node(p, E_FLT, 'Fleet.can_get', lambda n: isinstance(n, ast.Return) and 'reservations_get' in ast.unparse(n), 'return True'))
+fire('C11', 'buffer-occupancy-ready-only', 'C11.R3', 'Buffer.occupancy',
+     lambda p: M.replace_node(p, E_BUF, 'Buffer.occupancy', lambda n: isinstance(n, ast.Return), 'return len(self.inbuiltstore.ready_items)'))
+fire('C11', 'bufferstore-ready-before-timer', 'C11.R4', 'BufferStore.move_to_ready_items',
+     lambda p: M.delete_stmt(p, S_BUF, 'BufferStore.move_to_ready_items', lambda n: isinstance(n, ast.Expr) and isinstance(n.value, ast.Yield)))
+fire('C11', 'bufferstore-timer-constant', 'C11.R4', 'BufferStore.move_to_ready_items',
+     lambda p: M.replace_node(p, S_BUF, 'BufferStore.move_to_ready_items', M.is_call('self.env.timeout'), 'self.env.timeout(1)'))
+fire('C11', 'bufferstore-put-straight-to-ready', 'C11.R4', 'BufferStore',
+     lambda p: M.insert_after(p, S_BUF, 'BufferStore._do_put', M.stmt_calling('self.items.append'), 'self.ready_items.append(item[0])'))
+fire('C11', 'buffer-put-draws-twice', 'C11.R5', 'Buffer.put',
+     lambda p: M.insert_after(p, E_BUF, 'Buffer.put', M.assign_to('delay'), 'delay = self.get_delay(self.delay)'))
+fire('C11', 'buffer-put-stores-other-delay', 'C11.R5', 'Buffer.put',
+     lambda p: M.replace_node(p, E_BUF, 'Buffer.put', M.is_call('self.inbuiltstore.put'), sub('(item,delay)', '(item, 0)')))
+fire('C11', 'edge-get-delay-no-check', 'C11.R5', 'Edge.get_delay',
+     lambda p: M.delete_stmt(p, 'edges/edge.py', 'Edge.get_delay', lambda n: isinstance(n, ast.Assert)))
+silent('C11', 'buffer-can-put-rearranged',
+       lambda p: M.replace_node(p, E_BUF, 'Buffer.can_put', lambda n: isinstance(n, ast.Return) and 'reservations_put' in ast.unparse(n),
+                                'return len(self.inbuiltstore.reservations_put) + len(self.inbuiltstore.items) + len(self.inbuiltstore.ready_items) < self.capacity'))
+silent('C11', 'buffer-can-put-early-test-dropped',
+       lambda p: M.replace_node(p, E_BUF, 'Buffer.can_put', lambda n: isinstance(n, ast.If), 'pass'))
+silent('C11', 'fleet-can-get-single-expression',
+       lambda p: M.replace_node(p, E_FLT, 'Fleet.can_get', lambda n: isinstance(n, ast.If), 'pass'))
